@@ -39,7 +39,7 @@ def cases_for(k, tier, lanes):
 class EccHarness(Harness):
     """phases: 0 configure (first choice selects the case), 1 write cmd, 2 write done, 3 read cmd, 4 done"""
 
-    def __init__(self, k=8, burst=1, tier="quick", timing_free=False, case_list=None, lane_sel=0, wmin=3, rmin=6):
+    def __init__(self, k=8, burst=1, tier="quick", timing_free=False, case_list=None, lane_sel=0, wmin=3, rmin=6, nreads=1):
         from litedram.common import LiteDRAMNativePort
         from litedram.frontend.ecc import LiteDRAMNativePortECC
         from litex.soc.cores.ecc import compute_m_n
@@ -53,7 +53,7 @@ class EccHarness(Harness):
         dut.finalize()
         reads = Responder.reads([pt]) + [pf.cmd.ready, pf.wdata.ready, pf.rdata.valid, pf.rdata.data, dut.sec_errors.status, dut.ded_errors.status, dut.we_errors.status]
         self.c = c = fhdl.compile_harness(dut, reads)
-        self.resp = Responder(c, [pt], wmin=wmin, rmin=rmin, qmax=2)
+        self.resp = Responder(c, [pt], wmin=wmin, rmin=rmin, qmax=max(2, nreads))
         ii = c.ii
         self.i_valid = ii[pf.cmd.valid]; self.i_we = ii[pf.cmd.we]; self.i_addr = ii[pf.cmd.addr]
         self.i_wvalid = ii[pf.wdata.valid]; self.i_wdata = ii[pf.wdata.data]; self.i_wwe = ii[pf.wdata.we]; self.i_rready = ii[pf.rdata.ready]
@@ -61,7 +61,7 @@ class EccHarness(Harness):
         self.r_ready = R(pf.cmd.ready); self.r_wready = R(pf.wdata.ready); self.r_rvalid = R(pf.rdata.valid); self.r_rdata = R(pf.rdata.data)
         self.r_sec = R(dut.sec_errors.status); self.r_ded = R(dut.ded_errors.status); self.r_weerr = R(dut.we_errors.status)
         self.base = list(c.base_inputs); self.base[self.i_rready] = 1
-        self.timing_free = timing_free
+        self.timing_free = timing_free; self.nreads = nreads
         self.lane_sel = lane_sel
         self.full_we = (1 << (k * burst // 8)) - 1
         if case_list is not None:
@@ -84,14 +84,14 @@ class EccHarness(Harness):
     # phases: 0 configure (the first choice selects the case) - 1 write (command + data offered together) - 2 wait until the memory took the
     # write - 3 read command - 4 wait for the read word - 5 let the counters settle - 9 done
     def env0(self):
-        return (0, -1, 0, 0, 0, 0, self.resp.init())
+        return (0, -1, 0, 0, 0, 0, self.resp.init(), 0, 0)
 
     def default_resp(self, rs):
         el = self.resp.eligible(rs[0])
         return (1 if len(rs[0]) < self.resp.qmax else 0, (el[0],) if el else ())
 
     def menu(self, S, E):
-        ph, ci, hold, cdone, ddone, delay, rs = E
+        ph, ci, hold, cdone, ddone, delay, rs, ri, rg = E
         if ph == 0: return [("case", i) for i in range(len(self.cases))]
         if self.timing_free and ph < 9:
             go = (1,) if (hold or ph not in (1, 3) or cdone) else (1, 0)
@@ -105,7 +105,7 @@ class EccHarness(Harness):
         return "go=%d cmd.ready=%d serve=%s" % (ch[0], ch[1][0], list(ch[1][1]))
 
     def drive(self, S, E, ch):
-        ph, ci, hold, cdone, ddone, delay, rs = E
+        ph, ci, hold, cdone, ddone, delay, rs, ri, rg = E
         I = list(self.base)
         if ch[0] == "case": return tuple(I)
         go, rch = ch
@@ -126,9 +126,9 @@ class EccHarness(Harness):
         return tuple(I)
 
     def observe(self, S, E, ch, I, O, S2):
-        ph, ci, hold, cdone, ddone, delay, rs = E
+        ph, ci, hold, cdone, ddone, delay, rs, ri, rg = E
         if ch[0] == "case":
-            return (1, ch[1], 0, 0, 0, 0, rs), 0
+            return (1, ch[1], 0, 0, 0, 0, rs, 0, 0), 0
         go, rch = ch
         d, f, we = self.cases[ci]
         nflip = bin(f).count("1")
@@ -145,16 +145,19 @@ class EccHarness(Harness):
             if any(e[0] == "w" for e in evs) or (not rs2[0]): ph = 3; cdone = 0
         elif ph == 3:
             if go:
-                if self.r_ready(S, I, O): ph = 4; hold = 0; prog = True
+                if self.r_ready(S, I, O):
+                    ri += 1; hold = 0; prog = True
+                    if ri == self.nreads: ph = 4
                 else: hold = 1
         if self.r_rvalid(S, I, O):
             prog = True
-            if ph != 4: raise Violation("ecc.unexpected_read_word", "read word delivered without an outstanding read")
+            if rg >= ri: raise Violation("ecc.unexpected_read_word", "read word delivered without an outstanding read")
             got = (self.r_rdata(S, I, O) >> (self.lane_sel * self.k)) & ((1 << self.k) - 1)
             if not partial and nflip <= 1 and got != d:
                 self.report("ecc.data_corrupted", "read back %x, written %x (flip mask %x: %d flipped bit(s))" % (got, d, f, nflip), nflip=nflip)
             self.cov["reads"] = self.cov.get("reads", 0) + 1
-            ph = 5; delay = 0
+            rg += 1
+            if rg == self.nreads: ph = 5; delay = 0
         elif ph == 5:
             delay += 1
             if delay == 3:
@@ -167,10 +170,10 @@ class EccHarness(Harness):
                         self.parity_candidates.add(f)
                         if len(self.parity_candidates) > 1:
                             self.report("ecc.single_not_counted", "single flips at more than one codeword position are not counted as corrected: %s" % sorted(hex(x) for x in self.parity_candidates), nflip=1)
-                    elif sec != 1: self.report("ecc.single_counted_twice", "one corrected event counted %d times" % sec, nflip=1)
+                    elif sec != self.nreads: self.report("ecc.single_miscounted", "%d corrected read words counted as %d" % (self.nreads, sec), nflip=1)
                 else:
                     if not ded: self.report("ecc.double_not_flagged", "double flip %x: ded=%d sec=%d (reported %s)" % (f, ded, sec, "clean" if not sec else "corrected"), nflip=2)
-                    elif ded != 1: self.report("ecc.double_counted_twice", "one uncorrectable event counted %d times" % ded, nflip=2)
+                    elif ded != self.nreads: self.report("ecc.double_miscounted", "%d uncorrectable read words counted as %d" % (self.nreads, ded), nflip=2)
                     if sec and not ded: pass
                 if partial and not wee: self.report("ecc.partial_write_not_reported", "write with byte enables %x (not all bytes of the ECC word) was not reported as a granularity error" % we, kind="we_partial")
                 if not partial and wee: self.report("ecc.full_write_reported", "full write (byte enables %x) counted as a granularity error (%d times)" % (we, wee), kind="we_full")
@@ -181,7 +184,7 @@ class EccHarness(Harness):
         coop = go == 1 and rch == self.default_resp(rs)
         if coop and ph < 5: ev |= EV_OUT
         if prog: ev |= EV_PROG
-        return (ph, ci, hold, cdone, ddone, delay, rs2), ev
+        return (ph, ci, hold, cdone, ddone, delay, rs2, ri, rg), ev
 
     def coverage(self):
         d = dict(self.cov); d["codeword_positions_not_counted_as_sec"] = sorted(hex(x) for x in self.parity_candidates)
@@ -207,6 +210,7 @@ def configs(tier):
     add("timing-k8", live=True, k=8, timing_free=True, case_list=small8)
     small16 = [(0xBEEF, 0, 3), (0xBEEF, 0, 1), (0xBEEF, 0, 2), (0x1234, 1 << 7, 3), (0x1234, (1 << 3) | (1 << 20), 3)]
     add("timing-k16-partial", live=True, k=16, timing_free=True, case_list=small16)
+    add("timing-k8-2reads-back-to-back", live=True, k=8, timing_free=True, nreads=2, case_list=[(0xC3, 1 << 3, 1), (0xC3, (1 << 1) | (1 << 7), 1), (0xC3, 0, 1)])
     add("timing-k8-burst2-partial", live=True, k=8, burst=2, timing_free=True, case_list=[(0x5C, 0, 3), (0x5C, 0, 1), (0x5C, 1 << 4, 3)])
     return cs
 
